@@ -222,21 +222,55 @@ def entry(code):
     return np.exp((-1j if neg else 1j) * math.pi / 2 ** k)
 
 
+def ap1(T, q, A):
+    """numpy transcription of Base/State.v apply1 on a tensor with one axis per qubit (qubit 0 = first axis):
+    new[b] = sum_c A[b_q, c] old[b with q := c]"""
+    T = np.tensordot(A, T, axes=([1], [q]))
+    return np.moveaxis(T, 0, q)
+
+
+def ap2(T, q1, q2, G):
+    """numpy transcription of Base/State.v apply2; G is 4x4 with index 2*first + second"""
+    G = G.reshape(2, 2, 2, 2)  # [r1, r2, c1, c2]
+    T = np.tensordot(G, T, axes=([2, 3], [q1, q2]))   # axes r1, r2, rest...
+    return np.moveaxis(T, [0, 1], [q1, q2])
+
+
+# The transcription itself is checked EXACTLY against Base/State.v: Coq evaluates apply1/apply2 over Z on generic
+# (non-symmetric) integer matrices and a generic integer state on 3 qubits, for every qubit / ordered qubit pair.
+TRANSCRIPTION_V = r"""
+From Coq Require Import List ZArith Bool.
+Require Import QG.Base.State.
+Import ListNotations.
+Local Open Scope Z_scope.
+Fixpoint allb (n : nat) : list (list bool) := match n with O => [[]] | S m => map (cons false) (allb m) ++ map (cons true) (allb m) end.
+Definition b2 (x : bool) : Z := if x then 1 else 0.
+Definition idx (b : list bool) : Z := fold_left (fun a x => 2 * a + b2 x) b 0.
+Definition psi (b : list bool) : Z := 3 + 7 * idx b + idx b * idx b * idx b.
+Definition A : m2 Z := fun r c => 1 + 2 * b2 r + 5 * b2 c + 9 * b2 r * b2 c.
+Definition pidx (p : bool * bool) : Z := 2 * b2 (fst p) + b2 (snd p).
+Definition G : m4 Z := fun r c => 1 + 3 * pidx r + 17 * pidx c + pidx r * pidx r * pidx c.
+Definition r1 := map (fun q => map (apply1 Z Z.add Z.mul q A psi) (allb 3)) [0; 1; 2]%nat.
+Definition r2 := map (fun qq => map (apply2 Z Z.add Z.mul (fst qq) (snd qq) G psi) (allb 3)) [(0, 1); (1, 0); (0, 2); (2, 0); (1, 2); (2, 1)]%nat.
+Eval vm_compute in (r1 ++ r2).
+"""
+
+
+def transcription_expected():
+    idx = np.arange(8, dtype=object)
+    psi = (3 + 7 * idx + idx ** 3).reshape(2, 2, 2)
+    A = np.array([[1 + 2 * r + 5 * c + 9 * r * c for c in range(2)] for r in range(2)], dtype=object)
+    G = np.array([[1 + 3 * r + 17 * c + r * r * c for c in range(4)] for r in range(4)], dtype=object)
+    out = [[int(v) for v in ap1(psi, q, A).reshape(-1)] for q in range(3)]
+    out += [[int(v) for v in ap2(psi, a, b, G).reshape(-1)] for a, b in [(0, 1), (1, 0), (0, 2), (2, 0), (1, 2), (2, 1)]]
+    return out
+
+
 def model_unitary(gates, n, tables):
     """Base/State.v semantics (apply1/apply2, qubit 0 = first axis) of a dumped instruction list, with the matrices
     Coq printed; returned in qiskit's little-endian index convention."""
     N = 2 ** n
     T = np.eye(N, dtype=complex).reshape((2,) * n + (N,))
-
-    def ap1(T, q, A):
-        # new[b] = sum_c A[b_q, c] old[b with q := c]
-        T = np.tensordot(A, T, axes=([1], [q]))
-        return np.moveaxis(T, 0, q)
-
-    def ap2(T, q1, q2, G):
-        G = G.reshape(2, 2, 2, 2)  # [r1, r2, c1, c2]
-        T = np.tensordot(G, T, axes=([2, 3], [q1, q2]))   # axes r1, r2, rest...
-        return np.moveaxis(T, [0, 1], [q1, q2])
 
     for g in gates:
         if g[0] == "H":
@@ -274,8 +308,8 @@ def main(argv):
                   "model coq/Model/Bench.v is hand-written: tied to quantum_algorithms.py only by the exact instruction-list correspondence (n <= %d)" % NT,
                   "qiskit's meaning of h/cp/swap/cx, little-endian Operator/Statevector ordering and QuantumCircuit.inverse(): "
                   "the model's gate matrices (printed by Coq) are validated against qiskit.quantum_info.Operator numerically for n <= %d only" % NS,
-                  "checks/c18.py: dump(), the numpy transcription of Base/State.v apply1/apply2 (model_unitary), the oracle",
-                  "phase-ring interface (e additive, e(1/2) = -1, 2h^2 = 1): section hypotheses, discharged for Coquelicot's C in Proofs/BenchC.v when that file is present"]
+                  "checks/c18.py: dump(), the oracle, model_unitary (its apply1/apply2 transcription is itself compared exactly with Base/State.v evaluated in Coq on generic integer data)",
+                  "phase-ring interface (e additive, e(1/2) = -1, 2h^2 = 1): section hypotheses, all discharged for Coquelicot's C in Proofs/BenchC.v (CPhase)"]
     ck.assume = ["floating-point rounding of the simulator is outside the theorems (oracle tolerance 1e-9)",
                  "n >= 1; n = 0 is outside the property's domain (recorded as informational)"]
     gens = load_generators()
@@ -401,6 +435,16 @@ def main(argv):
                 if dev > 1e-10 and sem_fail is None:
                     sem_fail = "State.v semantics of the model's %s(%d) instruction list differs from qiskit's Operator by %.3g" % (name, n, dev)
     ck.oblige("model gate matrices (printed by Coq) reproduce qiskit.quantum_info.Operator for n = 1..%d" % NS, sem_fail is None)
+    # the numpy transcription of apply1/apply2 against Base/State.v itself (exact, integers)
+    rc, trout = ck.coq_eval(TRANSCRIPTION_V, name="c18_transcription")
+    try:
+        tr_ok = rc == 0 and parse_nat_lists(trout.replace("%Z", "")) == transcription_expected()
+    except Exception as ex:  # noqa
+        tr_ok = False; ck.notes.append("transcription check raised %r" % (ex,))
+    ck.count("transcription_apply12", 9, key="3 qubits, generic integer matrices")
+    ck.oblige("numpy transcription of Base/State.v apply1/apply2 agrees exactly with Coq on generic integer data (3 qubits, all qubit choices)", tr_ok)
+    if not tr_ok and sem_fail is None:
+        sem_fail = "checks/c18.py ap1/ap2 no longer transcribe Base/State.v apply1/apply2: " + trout[-300:]
     ck.exhaustive = False
     ck.extra["exhaustive_part"] = "every n in 1..%d for the instruction lists, every n in 1..%d for the simulation oracle" % (NT, NO)
 
